@@ -25,7 +25,8 @@ LONG_OVERFLOW = '1' * 7100          # longer than the largest symbol holds
 LONG_FIT = 'segno ' * 100           # byte mode, a large symbol
 
 DOMAIN = dict(
-    content=['', 'a', b'', 0, LONG_OVERFLOW, '123', 'HELLO WORLD', 'ä', '点', b'\x82\xa0', b'\xff', 12345, LONG_FIT, '漢字', b'a'],
+    content=['', 'a', b'', 0, LONG_OVERFLOW, '123', 'HELLO WORLD', 'ä', '点', b'\x82\xa0', b'\xff', 12345, LONG_FIT, '漢字', b'a',
+             b'\xeb\xc0', b'\xfc\xfc', '12\n'],
     version=[None, 0, 41, 'M5', 'm1', '1', 1.0, True, 1, 40, 'M4', 'M1', 'm3', -1, 'abc', '', '40', '07', 2, 'M2', '10', 'M0'],
     error=[None, 'x', 'l', 'H', 'L', 'm', 'q', 'h', '', 'LL', 'M'],
     mode=[None, 'Numeric', 'foo', 1, 'byte', 'kanji', 'hanzi', 'ALPHANUMERIC', 'BYTE', '', 'Kanji', 'numeric', 'HANZI', 'alphanumeric'],
@@ -244,7 +245,7 @@ def run_make_family(tier, rnd, st, res):
         for p in params:
             for v in DOMAIN[p]:
                 row = {q: DEFAULTS[q] for q in params if q != 'content'}
-                row['content'] = rnd.choice(['a', '123', 'HELLO WORLD', 12345, b'\x82\xa0'])
+                row['content'] = rnd.choice(['a', '123', 'HELLO WORLD', 12345, b'\x82\xa0', b'\xeb\xc0', b'\xfc\xfc', b'\xa0\x40', '12\n'])
                 if fn == 'make_sequence':
                     row['content'] = rnd.choice(['ABCDEFGHIJKLMNOPQRSTUVWX', '123456789012345678901234'])
                     row['symbol_count'] = rnd.choice([2, 3])
@@ -431,6 +432,12 @@ def run_serializers(tier, rnd, st, res):
             bad = BAD_COLOURS if tier != 'quick' and True else BAD_COLOURS[:7] + rnd.sample(BAD_COLOURS[7:], 6)
             for val in bad + (GOOD_COLOURS if key in ('dark', 'light') or tier != 'quick' else rnd.sample(GOOD_COLOURS, 2)):
                 attempt(qr, kind, key, val)
+        # call histories: a valid colour first, then a malformed one that compares equal as a Python value
+        # ((0, 0, 0, 2) is alpha 2/255, (0, 0, 0, 2.0) is out of range; True == 1; 1 == 1.0)
+        for key in COLOUR_KEYS.get(kind, [])[:1]:
+            for good, bad_eq in (((0, 0, 0, 2), (0, 0, 0, 2.0)), ((7, 7, 7, 255), (7, 7, 7, 255.0)), ((1, 2, 3), (1.0, 2.0, 3.0, 4.0, 5.0))):
+                attempt(qrs[2], kind, key, good)
+                attempt(qrs[2], kind, key, bad_eq)
         qr = rnd.choice(qrs)
         if kind not in ('txt', 'ans'):
             for val in (0, -1, -0.5, 0.0, -3, 1, 2):
